@@ -161,7 +161,7 @@ func init() {
 	}
 }
 
-var c11Fields = []string{"dflt", "my dflt", `d"q`, "ü", strings.Repeat("long_field_name_", 5), "AND", "5", "dflt", "dflt"}
+var c11Fields = []string{" dflt", "dflt ", "\tdflt\n", " ", "dflt", "my dflt", `d"q`, "ü", strings.Repeat("long_field_name_", 5), "AND", "5", "dflt", "dflt"}
 
 // c11Context classifies where bare terms stand (for the histogram / non-triviality).
 func c11Context(toks []gen.Tok) (bare, fielded, unary bool) {
@@ -246,8 +246,11 @@ func TestC11(t *testing.T) {
 			}
 		}
 		toks := gen.Print(tree, o).Toks
-		if rapid.IntRange(0, 3).Draw(rt, "mutate") == 0 {
+		switch rapid.IntRange(0, 4).Draw(rt, "mutate") {
+		case 0:
 			toks = mutateToks(rt, toks, pool)
+		case 1:
+			toks = gen.NestInTermPosition(rt, toks)
 		}
 		c := TokCase{Toks: toks, DF: rapid.SampledFrom(c11Fields).Draw(rt, "df")}
 		if !run("printed-and-mutated", c) {
